@@ -70,7 +70,8 @@ def candidates(repo):
                 if not s or s.startswith(("//", "#", "use ")) or "assert" in s:
                     continue
                 code = l.split("//")[0]
-                for m in IDENT.finditer(code):
+                nostr = re.sub(r'"(?:[^"\\]|\\.)*"', lambda m_: " " * len(m_.group(0)), code)  # identifiers inside string literals are text
+                for m in IDENT.finditer(nostr):
                     w = m.group(1)
                     if w in KEYWORDS:
                         continue
